@@ -178,8 +178,10 @@ def run(ctx):
             probed = c19_lines.committed_shape_ops(os.path.join(out, "tofile.ops"), os.path.join(out, "tofile.model.ops"), srw_seen)
             srw = c19_lines.seal_read_warns_from_gen()
             if srw != 1 or srw_seen - {"1"}:
-                corr_broken.append("probe of sealTornTail on an unreadable file (real updateFile()): sealReadWarns = %s, regenerated skeleton: %s "
-                                   "(accepted: only 1 = F47b = /repo 73f7348 for both; 0 = F47 alone, F47b reverted)" % (sorted(srw_seen), srw))
+                msg = ("probe of sealTornTail on an unreadable file (real updateFile()): sealReadWarns = %s, regenerated skeleton: %s "
+                       "(accepted: only 1 = F47b = /repo 73f7348 for both; 0 = F47 alone, F47b reverted)" % (sorted(srw_seen), srw))
+                if msg not in corr_broken:
+                    corr_broken.append(msg)
             ctx.corr["seal_read_warns"] = {"probe": sorted(srw_seen), "regenerated_skeleton": srw}
             if probed - {("1", "1")}:
                 corr_broken.append("probe of router()/updateFile() on the real code: (one_write, seals_tail) = %s, expected (1, 1) "
